@@ -163,17 +163,28 @@ def rule_getstate(model):
             r.finding(fi.where, t, f'the slice width ({w}) does not equal '
                       'the length of the prefixes: no attribute is ever '
                       'skipped (or the wrong ones are)', node=t, ctx=fi)
-        if not isinstance(t.ops[0], ast.In):
-            r.finding(fi.where, t, 'prefix test polarity changed', node=t,
-                      ctx=fi)
         par = t._dt_parent
-        if not (isinstance(par, ast.If) and par.body and
-                isinstance(par.body[0], ast.Continue)):
+        pos = isinstance(t.ops[0], ast.In)
+        skipped = False
+        if isinstance(par, ast.If):
+            if pos and par.body and isinstance(par.body[0], ast.Continue):
+                skipped = True          # if prefix in special: continue
+            elif not pos and any(
+                    isinstance(x, ast.Assign) and
+                    isinstance(x.targets[0], ast.Subscript)
+                    for x in par.body) and not par.orelse:
+                skipped = True          # if prefix not in special: d[k] = v
+        elif isinstance(par, ast.comprehension) and not pos:
+            skipped = True              # {k: v ... if prefix not in special}
+        if not skipped:
             r.finding(fi.where, t, 'attributes with a volatile prefix are '
-                      'not skipped', node=t, ctx=fi)
+                      'not skipped (or everything else is)', node=t,
+                      ctx=fi)
     # everything else is copied
-    copies = [n for n in own_nodes(fi.node) if isinstance(n, ast.Assign)
-              and isinstance(n.targets[0], ast.Subscript)]
+    copies = [n for n in own_nodes(fi.node) if (
+        isinstance(n, ast.Assign) and
+        isinstance(n.targets[0], ast.Subscript)) or
+        isinstance(n, ast.DictComp)]
     if not copies:
         r.finding(fi.where, 'd[k] = v', 'state is not copied', node=fi.node,
                   ctx=fi)
